@@ -133,7 +133,7 @@ class History:
                     names.add(mm[1])
                 elif mm[0] == "sym":
                     names |= dl.expr_names(mm[1])
-            proj = sorted((k, v) for k, v in before.items() if k in names)
+            proj = sorted((k, v) for k, v in before.items() if k.lstrip("*") in names)
             cls = set(out.classes)
             nontrivial = len(meanings) >= 2 and (
                 bool(cls & {"var-prefix", "var-suffix", "bcast-1", "sym", "sym-bcast"})
